@@ -1264,6 +1264,78 @@ def check_C15(tier, seed):
 
 
 # ---------------------------------------------------------------------------
+# C16: evaluation is a pure function of the text
+# ---------------------------------------------------------------------------
+def check_C16(tier, seed):
+    o = Outcome("C16", tier, seed, "model_checking")
+    o.assumptions = [
+        "spec/NlPure.tla: a call of program p can only finish with Baseline[p], the observation of a fresh process; histories are recorded by the harness (TLC can not steer the OS scheduler: the thread schedules explored are the ones sampled)",
+        "the release context is the same harness and interpreter built with the release profile (optimised, no overflow checks, no debug assertions); hooks are on in both",
+        "print buffers and instruction budgets are per thread; the shadow heap is process-wide",
+    ]
+    core.build(release=True)
+    wd = core.workdir("C16_histories")
+    groups = size(tier, 16, 96)
+    n = size(tier, 60, 150)
+
+    def one(g):
+        s_ = seed * 41 + g
+        base = os.path.join(wd, f"base{g}.json")
+        core.run_nlh(["gen-pure", "--ctx", "baseline", "--seed", s_, "--n", n, "--out", base], timeout=1800)
+        outs = []
+        for k, ctx in enumerate(("order", "threads", "release")):
+            f = os.path.join(wd, f"h{g}_{ctx}.ndjson")
+            core.run_nlh(["gen-pure", "--ctx", ctx, "--seed", s_, "--n", n, "--base", base, "--first-id", g * 10 + k + 1,
+                          "--out", f], timeout=1800, release=(ctx == "release"))
+            outs.append(f)
+        return outs
+    files = [f for fs in core.parallel(one, list(range(groups)), workers=8) for f in fs]
+    t0 = time.time()
+    results = run_tv_shards(files, "NlPure.tla", "NlPure.cfg", wd)
+    counts = {}
+    nev = 0
+    good = []
+    for f, r in zip(files, results):
+        o.add_tlc(r)
+        recs = {x["id"]: x for x in core.read_ndjson(f)}
+        for v in r.verdicts:
+            key = v["class"] + ":" + v["rule"]
+            counts[key] = counts.get(key, 0) + 1
+            nev += v.get("events", 0)
+            o.traces += v.get("events", 0)
+            rec = recs[v["id"]]
+            if v["class"] == "mismatch":
+                g = os.path.basename(f).split("_")[0][1:]
+                texts = json.load(open(os.path.join(wd, f"base{g}.json")))["texts"]
+                for x in v["viol"][:3]:
+                    e = rec["events"][x["at"] - 1]
+                    o.violation({"leg": "histories", "rule": "pure:" + x["class"], "context": rec["ctx"], "class": e["obs"].get("class"),
+                                 "msg": e["obs"].get("msg"), "text": texts[e["p"] - 1][:300]},
+                                {"context": rec["ctx"], "event": e, "baseline": rec["base"][e["p"] - 1], "text": texts[e["p"] - 1]})
+            else:
+                good.append(rec)
+    if good:
+        o.samples.append({"context": good[0]["ctx"], "events": [[e["t"], e["seq"], e["p"], e["obs"]["class"]] for e in good[0]["events"][:12]]})
+    bad = []
+    for r_ in good[:6]:
+        c = copy.deepcopy(r_)
+        e = c["events"][len(c["events"]) // 2]
+        e["obs"]["out"] = e["obs"]["out"] + [33]
+        bad.append(c)
+    bf = os.path.join(wd, "corrupt.ndjson")
+    core.write_ndjson(bf, bad)
+    rr = core.tlc_or_die("NlPure.tla", "NlPure.cfg", env={"RECS": bf}, workdir_=wd)
+    rej = sum(1 for v in rr.verdicts if v["class"] == "mismatch")
+    if rej != len(bad):
+        raise ToolError(f"C16: sensitivity self-test failed ({rej}/{len(bad)})")
+    o.legs.append({"leg": "histories", "histories": len(files), "events": nev, "verdicts": counts, "sensitivity_tried": len(bad),
+                   "sensitivity_rejected": rej, "wall_s": round(time.time() - t0, 1)})
+    o.extra["rule"] = ("batches of generated programs: each once in a fresh process (baseline), then in random order with repetitions in one "
+                       "process, concurrently from 16 threads with seeded per-thread orders, and by a release build; every finished call validated")
+    return o.finish()
+
+
+# ---------------------------------------------------------------------------
 # C17: a retained session
 # ---------------------------------------------------------------------------
 def check_C17(tier, seed):
@@ -1463,6 +1535,7 @@ CHECKS = {
     "C13": check_C13,
     "C14": check_C14,
     "C15": check_C15,
+    "C16": check_C16,
     "C17": check_C17,
     "C10": check_C10,
     "C02": check_C02,
